@@ -1,8 +1,9 @@
 // Correspondence harness of the re-indexing engine (C05-C11).
 // Base modules with imports of all five kinds interleaved, local functions / globals / memories, exports,
-// start, element segments (function-list and expression form), active data segments, global initialisers
-// that reference globals and functions; histories of the edit API; every reference is a numbered *site*
-// whose emitted index is read back from the real output.
+// start, element segments (function-list and expression form, an active segment whose offset is `global.get`),
+// a table initialiser `ref.func`, active data segments, global initialisers that reference globals and
+// functions; histories of the edit API; every reference is a numbered *site* whose emitted index is read back
+// from the real output.
 use std::panic::{catch_unwind, AssertUnwindSafe};
 use vharness::wasmgen::validates;
 use vharness::*;
@@ -49,8 +50,8 @@ impl HOp {
     }
 }
 #[derive(Clone, Copy, Debug, PartialEq)]
-enum Rk { Code, Export, Start, ElemFn, ElemExpr, DataMem, DataOff, Init }
-impl Rk { fn coq(&self) -> &'static str { match self { Rk::Code => "KCode", Rk::Export => "KExport", Rk::Start => "KStart", Rk::ElemFn => "KElemFn", Rk::ElemExpr => "KElemExpr", Rk::DataMem => "KDataMem", Rk::DataOff => "KDataOff", Rk::Init => "KInit" } } }
+enum Rk { Code, Export, Start, ElemFn, ElemExpr, DataMem, DataOff, Init, ElemOff, TableInit }
+impl Rk { fn coq(&self) -> &'static str { match self { Rk::Code => "KCode", Rk::Export => "KExport", Rk::Start => "KStart", Rk::ElemFn => "KElemFn", Rk::ElemExpr => "KElemExpr", Rk::DataMem => "KDataMem", Rk::DataOff => "KDataOff", Rk::Init => "KInit", Rk::ElemOff => "KElemOff", Rk::TableInit => "KTableInit" } } }
 #[derive(Clone, Copy, Debug)]
 enum Owner { None, Func(u64), Global(u64), Export(u64) }
 impl Owner { fn coq(&self) -> String { match self { Owner::None => "ONone".into(), Owner::Func(i) => format!("(OFunc {i})"), Owner::Global(i) => format!("(OGlobal {i})"), Owner::Export(k) => format!("(OExport {k})") } } }
@@ -63,6 +64,8 @@ struct Base {
     imports: Vec<(u64, u64)>, funcs: Vec<u64>, globals: Vec<(u64, Option<(Sp, u64)>)>, mems: Vec<u64>,
     exports: Vec<usize>, start: Option<usize>, elem_fn: Vec<Vec<usize>>, elem_expr: Vec<Vec<usize>>,
     data: Vec<(usize, Option<usize>)>, probe_sites: Vec<usize>,
+    /// site of the `global.get` offset of an extra (empty) active element segment; site of the `ref.func` table initialiser
+    elem_off: Option<usize>, table_init: Option<usize>,
 }
 
 fn code_site_enc(f: &mut wasm_encoder::Function, n: usize, s: &Site) {
@@ -134,7 +137,8 @@ fn build(b: &Base, sites: &[Site]) -> Vec<u8> {
     for _ in &b.funcs { fs.function(0); }
     m.section(&fs);
     let mut ts = we::TableSection::new();
-    ts.table(we::TableType { element_type: we::RefType::FUNCREF, table64: false, minimum: 64, maximum: None, shared: false });
+    let tty = we::TableType { element_type: we::RefType::FUNCREF, table64: false, minimum: 64, maximum: None, shared: false };
+    match b.table_init { Some(n) => { ts.table_with_init(tty, &we::ConstExpr::ref_func(sites[n].id as u32)); } None => { ts.table(tty); } }
     m.section(&ts);
     if !b.mems.is_empty() {
         let mut ms = we::MemorySection::new();
@@ -162,7 +166,7 @@ fn build(b: &Base, sites: &[Site]) -> Vec<u8> {
         m.section(&es);
     }
     if let Some(n) = b.start { m.section(&we::StartSection { function_index: sites[n].id as u32 }); }
-    if !b.elem_fn.is_empty() || !b.elem_expr.is_empty() {
+    if !b.elem_fn.is_empty() || !b.elem_expr.is_empty() || b.elem_off.is_some() {
         let mut es = we::ElementSection::new();
         for seg in &b.elem_fn {
             let ids: Vec<u32> = seg.iter().map(|n| sites[*n].id as u32).collect();
@@ -172,6 +176,8 @@ fn build(b: &Base, sites: &[Site]) -> Vec<u8> {
             let ex: Vec<we::ConstExpr> = seg.iter().map(|n| we::ConstExpr::ref_func(sites[*n].id as u32)).collect();
             es.active(Some(ntab_imp), &we::ConstExpr::i32_const(32), we::Elements::Expressions(we::RefType::FUNCREF, ex.into()));
         }
+        // an empty active segment whose offset is `global.get g` (g: an imported immutable i32 global)
+        if let Some(n) = b.elem_off { es.active(Some(ntab_imp), &we::ConstExpr::global_get(sites[n].id as u32), we::Elements::Functions(Vec::<u32>::new().into())); }
         m.section(&es);
     }
     let mut code = we::CodeSection::new();
@@ -201,7 +207,7 @@ struct Dec { imports: Vec<(u64, u64)>, funcs: Vec<u64>, globals: Vec<u64>, mems:
 
 /// `elem_sites`: site numbers of the element items in segment order; `init_sites`: site numbers of the live
 /// initialiser references in creation order of their globals, per flavour (getter, ref.func)
-fn decode(out: &[u8], elem_sites: &[usize], start_site: Option<usize>, init_get: &[usize], init_ref: &[usize]) -> Option<Dec> {
+fn decode(out: &[u8], elem_sites: &[usize], start_site: Option<usize>, init_get: &[usize], init_ref: &[usize], elem_off: Option<usize>, table_init: Option<usize>) -> Option<Dec> {
     let mut d = Dec { imports: vec![], funcs: vec![], globals: vec![], mems: vec![], sites: vec![] };
     let mut elem_seen = 0usize; let mut nget = 0usize; let mut nref = 0usize;
     for p in wasmparser::Parser::new(0).parse_all(out) {
@@ -223,6 +229,13 @@ fn decode(out: &[u8], elem_sites: &[usize], start_site: Option<usize>, init_get:
                 }
             },
             wasmparser::Payload::MemorySection(r) => for mm in r { d.mems.push(mm.ok()?.initial); },
+            wasmparser::Payload::TableSection(r) => for t in r {
+                if let wasmparser::TableInit::Expr(ex) = t.ok()?.init {
+                    let mut rd = ex.get_operators_reader();
+                    let q = if let Operator::RefFunc { function_index } = rd.read().ok()? { function_index as u64 } else { 888888 };
+                    d.sites.push((table_init.map(|n| n as u64).unwrap_or(999999), q));
+                }
+            },
             wasmparser::Payload::ExportSection(r) => for e in r {
                 let e = e.ok()?;
                 if let Some(n) = e.name.strip_prefix('e').and_then(|x| x.parse::<u64>().ok()) { d.sites.push((n, e.index as u64)); }
@@ -230,6 +243,10 @@ fn decode(out: &[u8], elem_sites: &[usize], start_site: Option<usize>, init_get:
             wasmparser::Payload::StartSection { func, .. } => { if let Some(n) = start_site { d.sites.push((n as u64, func as u64)); } }
             wasmparser::Payload::ElementSection(r) => for e in r {
                 let e = e.ok()?;
+                if let wasmparser::ElementKind::Active { offset_expr, .. } = &e.kind {
+                    let mut rd = offset_expr.get_operators_reader();
+                    if let Operator::GlobalGet { global_index } = rd.read().ok()? { d.sites.push((elem_off.map(|n| n as u64).unwrap_or(999999), global_index as u64)); }
+                }
                 let mut push = |q: u64, d: &mut Dec| { match elem_sites.get(elem_seen) { Some(n) => d.sites.push((*n as u64, q)), None => d.sites.push((999999, q)) } elem_seen += 1; };
                 match e.items {
                     wasmparser::ElementItems::Functions(fr) => for f in fr { push(f.ok()? as u64, &mut d); },
@@ -338,7 +355,7 @@ fn main() {
 fn gen_case(r: &mut Rng, prop: &str, seed: u64, idx: u64) -> Case {
     let mut fpc = 0u64;
     let mut nfp = |fpc: &mut u64| { *fpc += 1; *fpc };
-    let mut base = Base { imports: vec![], funcs: vec![], globals: vec![], mems: vec![], exports: vec![], start: None, elem_fn: vec![], elem_expr: vec![], data: vec![], probe_sites: vec![] };
+    let mut base = Base { imports: vec![], funcs: vec![], globals: vec![], mems: vec![], exports: vec![], start: None, elem_fn: vec![], elem_expr: vec![], data: vec![], probe_sites: vec![], elem_off: None, table_init: None };
     let exhaustive = idx >= EXH_BASE;
     if exhaustive {
         // fixed base of the bounded-exhaustive enumeration: imports [func, global, func], locals f4 f5 probe, one global, one memory
@@ -395,6 +412,9 @@ fn gen_case(r: &mut Rng, prop: &str, seed: u64, idx: u64) -> Case {
         for _ in 0..1 + r.below(2) { sites.push(Site { k: Rk::ElemExpr, sp: Sp::F, id: r.below(len[0]), owner: Owner::None, flavour: 0, flavour2: 0 }); seg.push(sites.len() - 1); }
         elem_sites.extend(seg.iter().cloned()); base.elem_expr.push(seg);
     }
+    // constant expressions the IR keeps as parsed: the offset of an active element segment, a table initialiser
+    if nimp[1] > 0 && r.chance(1, 3) { sites.push(Site { k: Rk::ElemOff, sp: Sp::G, id: r.below(nimp[1]), owner: Owner::None, flavour: 0, flavour2: 0 }); base.elem_off = Some(sites.len() - 1); }
+    if r.chance(1, 3) { sites.push(Site { k: Rk::TableInit, sp: Sp::F, id: r.below(len[0]), owner: Owner::None, flavour: 0, flavour2: 0 }); base.table_init = Some(sites.len() - 1); }
     if len[2] > 0 {
         for _ in 0..r.below(3) {
             sites.push(Site { k: Rk::DataMem, sp: Sp::M, id: r.below(len[2]), owner: Owner::None, flavour: 0, flavour2: 0 });
@@ -566,7 +586,7 @@ fn gen_case(r: &mut Rng, prop: &str, seed: u64, idx: u64) -> Case {
     let enc: Option<(Vec<u8>, bool)> = match res { Ok(x) => x, Err(_) => { api_panic = true; None } };
     let live_init = |getter: bool| -> Vec<usize> { init_owner_ids.iter().filter(|(g, _, ig)| *ig == getter && !dead_globals.contains(g)).map(|(_, s, _)| *s).collect() };
     let (dec, valid, same2) = match &enc {
-        Some((out, same)) => (decode(out, &elem_sites, base.start, &live_init(true), &live_init(false)), validates(out), *same),
+        Some((out, same)) => (decode(out, &elem_sites, base.start, &live_init(true), &live_init(false), base.elem_off, base.table_init), validates(out), *same),
         None => (None, false, true),
     };
     let undecodable = enc.is_some() && dec.is_none();
@@ -594,6 +614,8 @@ fn gen_case(r: &mut Rng, prop: &str, seed: u64, idx: u64) -> Case {
     );
     let mut tags = vec![format!("hist_len={}", hist.len()), format!("api_panic={}", api_panic), format!("encoded={}", enc.is_some()), format!("valid={}", valid), format!("base_valid={}", base_valid), format!("nsites_bucket={}", sites.len() / 5 * 5)];
     for h in &hist { tags.push(format!("op={}", h.coq().split(' ').take(2).collect::<Vec<_>>().join("_"))); }
+    if base.elem_off.is_some() { tags.push("site_elem_offset_global".into()); }
+    if base.table_init.is_some() { tags.push("site_table_init_func".into()); }
     let _ = n_base_sites;
     Case { seed, idx, coq, desc, nontrivial: !hist.is_empty() && !sites.is_empty(), tags }
 }
